@@ -176,6 +176,9 @@ func TestC14(t *testing.T) {
 				if !mine(idx) {
 					continue
 				}
+				if rep.OverBudget() {
+					break
+				}
 				// the genuine original on a pristine receiver
 				effG, replyG := x.inject(sd.Buf, sd.Stream)
 				if effG == x.eff0 && (replyG == "none") {
